@@ -1,7 +1,8 @@
 (* Model/C10Machine.v — the C10 state machine: `step : state -> op -> state * answer`.
 
    Transliteration of the caching / cursor / generator skeleton of
-     elftools/dwarf/dwarfinfo.py   get_CU_at, get_CU_containing, _parse_CUs_iter,
+     elftools/dwarf/dwarfinfo.py   get_CU_at, get_CU_containing, _parse_CUs_iter, iter_TUs/_parse_TUs_iter,
+                                   _parse_debug_types, get_TU_by_sig8,
                                    _cached_CU_at_offset, _parse_CU_at_offset, get_abbrev_table,
                                    get_DIE_from_refaddr, line_program_for_CU,
                                    _parse_line_program_at_offset, CFI_entries, EH_CFI_entries
@@ -41,6 +42,9 @@ Record parsers := mk_parsers {
   p_info_size : Z;                                 (* debug_info_sec.size *)
   p_unit : Z -> res (unit_hdr * Z);                (* Dwarf_CU_header at a position: value, position after *)
   p_die : Z -> Z -> res (die_raw * Z);             (* unit offset -> position -> one DIE, position after *)
+  (* .debug_types *)
+  p_types_size : Z;                                (* debug_types_sec.size (0 when the section is absent) *)
+  p_tu : Z -> res (tu_raw * Z);                    (* Dwarf_TU_header at a position: value, position after *)
   (* .debug_abbrev *)
   p_abbrev_size : Z;
   p_abbrev : Z -> res (Z * Z);                     (* a whole abbreviation table at a position *)
@@ -187,6 +191,83 @@ Section Machine.
       let i := bisect_right (cu_keys s) refaddr in
       start <- lift (if (0 <? i)%nat then py_index (cu_keys s) (Z.of_nat i - 1) else Ok 0) ;;
       containing_loop fuel start refaddr.
+
+  (* ================================================================ type units *)
+
+  (* DWARFInfo._parse_TU_at_offset: struct_parse(the_Dwarf_uint32, stream, offset); struct_parse(Dwarf_TU_header,
+     stream, offset); tu_die_offset = stream.tell(): a NEW TypeUnit object on every call *)
+  Definition parse_TU_at_offset (offset : Z) : M tu_raw := struct_parse (p_tu P) S_TYPES (Some offset).
+
+  (* one resumption of DWARFInfo._parse_TUs_iter(offset):
+       if self.debug_types_sec is None: return
+       while offset < self.debug_types_sec.size:
+           tu = self._parse_TU_at_offset(offset)
+           offset += tu['unit_length'] + tu.structs.initial_length_field_size()
+           yield tu *)
+  Definition tus_iter_next (offset : Z) : M (option (tu_raw * Z)) :=
+    if offset <? p_types_size P then
+      tu <- parse_TU_at_offset offset ;; ret (Some (tu, offset + tu_size tu))
+    else ret None.
+
+  (* DWARFInfo._parse_debug_types:
+       if self._type_units_by_sig is not None: return
+       self._type_units_by_sig = {}
+       offset = 0
+       while offset < self.debug_types_sec.size:           # when the section exists
+           tu = self._parse_TU_at_offset(offset); self._type_units_by_sig[tu['signature']] = tu; offset += ...
+       for cu in self._parse_CUs_iter():                    # DWARF v5 type units live in .debug_info
+           if cu.header.get('unit_type') in (DW_UT_type, DW_UT_split_type):
+               self._type_units_by_sig[cu['type_signature']] = cu *)
+  Definition tumap_put (sig : Z) (v : Z * Z * Z) : M unit :=
+    modify (fun s => set_tu_map s (Some (dict_set Z.eqb (match tu_map s with Some m => m | None => [] end) sig v))).
+  Fixpoint types_loop (n : nat) (offset : Z) : M unit :=
+    match n with
+    | O => fail EFuel
+    | S n' =>
+        r <- tus_iter_next offset ;;
+        match r with
+        | None => ret tt
+        | Some (tu, offset') => tumap_put (tu_sig tu) (0, offset, tu_pid tu) ;;; types_loop n' offset'
+        end
+    end.
+  Fixpoint info_types_loop (n : nat) (offset : Z) : M unit :=
+    match n with
+    | O => fail EFuel
+    | S n' =>
+        r <- cus_iter_next offset ;;
+        match r with
+        | None => ret tt
+        | Some (cu, offset') =>
+            c <- get_cu cu ;;
+            match uh_tsig (c_hdr c) with
+            | Some sig => tumap_put sig (1, c_off c, uh_pid (c_hdr c))
+            | None => ret tt
+            end ;;;
+            info_types_loop n' offset'
+        end
+    end.
+  Definition parse_debug_types : M unit :=
+    s <- get_state ;;
+    match tu_map s with
+    | Some _ => ret tt
+    | None =>
+        modify (fun s => set_tu_map s (Some [])) ;;;
+        types_loop fuel 0 ;;;
+        info_types_loop fuel 0
+    end.
+
+  (* DWARFInfo.get_TU_by_sig8(sig8):
+       self._parse_debug_types()
+       tu = self._type_units_by_sig.get(sig8)
+       if tu is None: raise KeyError(...)
+       return tu *)
+  Definition get_TU_by_sig8 (sig : Z) : M (Z * Z * Z) :=
+    parse_debug_types ;;;
+    s <- get_state ;;
+    match dict_get Z.eqb (match tu_map s with Some m => m | None => [] end) sig with
+    | Some v => ret v
+    | None => fail (EPy "KeyError")
+    end.
 
   (* ================================================================ abbreviation tables *)
 
@@ -818,6 +899,12 @@ Section Machine.
         | None => ret None
         | Some (cu, offset') => a <- cu_answer cu ;; ret (Some (FCUs offset', a))
         end
+    | FTUs offset =>
+        r <- tus_iter_next offset ;;
+        match r with
+        | None => ret None
+        | Some (tu, offset') => ret (Some (FTUs offset', AVals [0; offset; tu_pid tu]))
+        end
     | FChildren cf =>
         r <- children_next fuel cf ;;
         match r with
@@ -871,6 +958,8 @@ Section Machine.
         end
     | CFI eh => e <- cfi_fetch eh ;; ret (AVals [e])
     | CFIDecoded eh i => t <- cfi_decoded eh i ;; ret (AVals [t])
+    | TUBySig sig => v <- get_TU_by_sig8 sig ;; ret (AVals [fst (fst v); snd (fst v); snd v])
+    | NewIterTUs slot => set_slot slot (FTUs 0) ;;; ret ADone
     | NewIterCUs slot => set_slot slot (FCUs 0) ;;; ret ADone
     | NewIterDIEs slot u =>
         (* iter_DIEs() calls get_top_DIE() eagerly: return self._iter_DIE_subtree(self.get_top_DIE()) *)
